@@ -198,6 +198,88 @@ example :
       int8Blocks (R := Int) true 4 [2, 3] [1, 2] [127, -5, 0, 64, -127, 1, 2, 3] [0, 15, 8, 7, 1, 9, 12, 3] := by
   decide
 
+/-! ### Signed weights: dequantize ∘ unpack ∘ pack = id -/
+
+theorem unpackBytes_packNibbles : ∀ (l : List Nat), l.length % 2 = 0 → (∀ x ∈ l, x < 16) →
+    unpackBytes (packNibbles l) = l
+  | [], _, _ => rfl
+  | [_], h, _ => by simp at h
+  | lo :: hi :: rest, h, hb => by
+    have hlo : lo < 16 := hb lo (by simp)
+    have hhi : hi < 16 := hb hi (by simp)
+    have := pack_unpack_nibbles lo hi hlo hhi
+    simp only [packNibbles, unpackBytes, this.1, this.2]
+    rw [unpackBytes_packNibbles rest (by simp only [List.length_cons] at h; omega)
+      (fun x hx => hb x (by simp [hx]))]
+
+/-- **C37.T2d** For every column of signed 4-bit weights (`−8 ≤ w ≤ 7`, even length): unpacking the
+packed bytes low-nibble-first and subtracting the zero point 8 returns the weights — the block
+layout `[N, k_blocks, block_size/2]` is just this byte list cut into blocks (see
+`c37_index_map_agrees_with_unpack`). -/
+theorem c37_dequantize_unpack_pack (ws : List Int) (hlen : ws.length % 2 = 0)
+    (hr : ∀ w ∈ ws, -8 ≤ w ∧ w ≤ 7) : unpackWeights (packWeights ws) = ws := by
+  unfold unpackWeights packWeights
+  rw [unpackBytes_packNibbles _ (by simpa using hlen) (by
+    intro x hx
+    simp only [List.mem_map] at hx
+    obtain ⟨w, hw, rfl⟩ := hx
+    have := hr w hw
+    unfold nibbleOfWeight
+    omega)]
+  rw [List.map_map]
+  have : ∀ w ∈ ws, ((fun q : Nat => (q : Int) - 8) ∘ nibbleOfWeight) w = w := by
+    intro w hw
+    have := hr w hw
+    simp only [Function.comp, nibbleOfWeight]
+    omega
+  calc ws.map ((fun q : Nat => (q : Int) - 8) ∘ nibbleOfWeight) = ws.map id :=
+        List.map_congr_left this
+    _ = ws := List.map_id ws
+
+/-- … and the packed bytes are bytes. -/
+theorem c37_packed_bytes_lt_256 (lo hi : Nat) : packByte lo hi < 256 := by
+  unfold packByte; omega
+
+example : packWeights [-8, 7, 0, -1] = [0xF0, 0x78] ∧ unpackWeights [0xF0, 0x78] = [-8, 7, 0, -1] := by
+  decide
+
+/-- All 256 (even, odd) weight pairs by evaluation. -/
+theorem c37_dequantize_unpack_pack_all_pairs :
+    ∀ a b : Fin 16, unpackWeights (packWeights [(a.val : Int) - 8, (b.val : Int) - 8]) =
+      [(a.val : Int) - 8, (b.val : Int) - 8] := by decide +kernel
+
+/-! ### LHS quantisation (`quantize`) -/
+
+/-- **C37.T3b** For any nearest-integer rounding: the quantised value of an element of a block with
+`absmax = A > 0` lies in `[−127, 127]` (no clamp is ever needed, the `as i8` cast is exact) and the
+de-quantisation error is at most half a scale step: `|q·A − 127·X| ≤ A/2`, i.e.
+`|q·scale − x| ≤ scale/2` with `scale = A/127`. -/
+theorem c37_quantize_in_range_and_half_step (A X q : Int) (hA : 0 < A) (hx : -A ≤ X ∧ X ≤ A)
+    (hq : NearestQ A X q) : (-127 ≤ q ∧ q ≤ 127) ∧ 2 * (q * A - 127 * X) ≤ A ∧
+      -A ≤ 2 * (q * A - 127 * X) := by
+  refine ⟨?_, hq⟩
+  unfold NearestQ at hq
+  constructor
+  · -- q ≤ −128 would give q·A ≤ −128·A
+    apply Classical.byContradiction
+    intro hc
+    have h128 : q ≤ -128 := by omega
+    have : q * A ≤ -128 * A := Int.mul_le_mul_of_nonneg_right h128 (Int.le_of_lt hA)
+    omega
+  · apply Classical.byContradiction
+    intro hc
+    have h128 : 128 ≤ q := by omega
+    have : 128 * A ≤ q * A := Int.mul_le_mul_of_nonneg_right h128 (Int.le_of_lt hA)
+    omega
+
+/-- Non-vacuity: `A = 254`, `X = 100` → `q = 50` is nearest. -/
+example : NearestQ 254 100 50 ∧ ¬ NearestQ 254 100 51 := by unfold NearestQ; omega
+
+/-- The exact-domain quantiser used by the driver agrees with the law: when it answers, `q·s = x`
+for every element and `|q| ≤ 127`. -/
+example : quantizeBlockExact [254, -100, 0, 2] = some ([127, -50, 0, 1], 2) ∧
+    quantizeBlockExact [0, 0] = some ([0, 0], 0) ∧ quantizeBlockExact [3, 1] = none := by decide
+
 /-- The API cannot express a partial final block: `rows() = k_blocks · block_size`, and an LHS whose
 K differs is rejected with `KSizeMismatch` (model of the argument checks; tied by the harness). -/
 theorem c37_partial_block_rejected (kBlocks blockBytes lhsK n m batch : Nat)
